@@ -19,6 +19,7 @@ namespace
         static Counted make(long id) { return Counted(id); }
         static void tok(std::string& s, const Counted& e) { c19::put(s, e.id); }
         static void mtok(std::string& s, long id) { c19::put(s, id); }
+        static const char* dtok() { return " 0"; }
     };
     template <>
     struct Cell<utl::maybe<int>>
@@ -43,6 +44,7 @@ namespace
                 s += std::to_string(*m);
             }
         }
+        static const char* dtok() { return " N"; }   // std::optional<int>{}
     };
     template <>
     struct Cell<utl::either<int, double>>
@@ -72,12 +74,43 @@ namespace
                 s += std::to_string((long long)(std::get<1>(m) * 4));
             }
         }
+        static const char* dtok() { return " L0"; }  // std::variant<int,double>{}
     };
 
+    // For the counted element type the model additionally holds a real std::vector<CountedM>, so that the number of
+    // live element objects of utl::vector<Counted> is compared with what std::vector really holds at every step.
+    template <typename E>
+    struct Shadow
+    {
+        void sized(size_t) {}
+        void push(long) {}
+        void resize(size_t) {}
+        void write(size_t, long) {}
+    };
+    template <>
+    struct Shadow<Counted>
+    {
+        std::vector<c19::CountedM> o;
+        void sized(size_t n) { o = std::vector<c19::CountedM>(n); }
+        void push(long id)
+        {
+            c19::CountedM t(id);
+            o.push_back(t);
+        }
+        void resize(size_t n) { o.resize(n); }
+        void write(size_t i, long id)
+        {
+            c19::CountedM t(id);
+            o[i] = t;
+        }
+    };
+
+    template <typename E>
     struct MVec
     {
-        std::vector<std::string> v;  // expected token of each cell ("" = unspecified)
-        std::vector<char> def;
+        std::vector<std::string> v;  // expected token of each cell
+        std::vector<char> def;       // all cells are specified: utl::vector value-initialises like std::vector
+        Shadow<E> sh;
     };
 
     template <typename E>
@@ -87,7 +120,7 @@ namespace
         static constexpr int NS = 2;
         static constexpr bool refine_leak0 = true;
         c19::Slot<L> lib[2];
-        std::optional<MVec> mod[2];
+        std::optional<MVec<E>> mod[2];
         int fill = 0, kstep = 0;
 
         void finish()
@@ -163,8 +196,9 @@ namespace
                 if (mod[x]) return nullptr;
                 lib[x].make(fill, [&](void* p) { new (p) L((size_t)a); });
                 mod[x].emplace();
-                mod[x]->v.assign((size_t)a, std::string());
-                mod[x]->def.assign((size_t)a, 0);
+                mod[x]->v.assign((size_t)a, std::string(Cell<E>::dtok()));
+                mod[x]->def.assign((size_t)a, 1);
+                mod[x]->sh.sized((size_t)a);
                 return a == 0 ? "ctor_sized0" : "ctor_sized";
             case 3: {
                 if (a != 2 && a != 3) return "skip";
@@ -178,6 +212,7 @@ namespace
                 for (int j = 0; j < a; j++) {
                     mod[x]->v.push_back(mt(vid(k, j)));
                     mod[x]->def.push_back(1);
+                    mod[x]->sh.push(vid(k, j));
                 }
                 return "ctor_variadic";
             }
@@ -192,7 +227,7 @@ namespace
                 L& dst = *lib[x];
                 const L& src = *lib[a];
                 dst = src;
-                MVec tmp = *mod[a];
+                MVec<E> tmp = *mod[a];
                 *mod[x] = tmp;
                 return a == x ? "assign_self" : "assign_other";
             }
@@ -204,14 +239,16 @@ namespace
                 }
                 mod[x]->v.push_back(mt(vid(k, 0)));
                 mod[x]->def.push_back(1);
+                mod[x]->sh.push(vid(k, 0));
                 return "push_back";
             }
             case 7: {
                 if (!mod[x] || a < 0) return "skip";
                 auto old = mod[x]->v.size();
                 (*lib[x]).resize((size_t)a);
-                mod[x]->v.resize((size_t)a);
-                mod[x]->def.resize((size_t)a, 0);
+                mod[x]->v.resize((size_t)a, std::string(Cell<E>::dtok()));
+                mod[x]->def.resize((size_t)a, 1);
+                mod[x]->sh.resize((size_t)a);
                 return (size_t)a < old ? "resize_shrink" : ((size_t)a == old ? "resize_same" : "resize_grow");
             }
             case 8: {
@@ -225,7 +262,17 @@ namespace
                 }
                 mod[x]->v[i] = mt(vid(k, 0));
                 mod[x]->def[i] = 1;
+                mod[x]->sh.write(i, vid(k, 0));
                 return was_def ? "write" : "write_fresh";  // write_fresh: first write into a cell created by resize / sized ctor
+            }
+            case 9: {  // read one cell through the const interface
+                if (!mod[x] || mod[x]->v.empty() || a < 0) return "skip";
+                size_t i = (size_t)a % mod[x]->v.size();
+                if (!mod[x]->def[i]) return "skip";
+                const L& c = *lib[x];
+                std::string sink;
+                Cell<E>::tok(sink, c.at(i));
+                return "read";
             }
             default: return "skip";
             }
